@@ -52,7 +52,7 @@ def run(ctx):
     for ident, I in K.family(ctx, n_ifaces, "C02"):
         K.shape_stats(ctx, I)
         rident = "canonical" if ctx.rng.random() < 0.6 else "r:" + ident
-        docs = IF.render(K.rendering_of(rident), I)
+        docs = IF.render(K.rendering_of(rident, anonymous=False), I)
         try:
             client = K.make_client(docs, nosend=False)
         except Exception as e:
@@ -186,7 +186,7 @@ def replay(ctx, payload):
     if "iface" not in m:
         return {"fails": bool(f), "recorded": f}
     I = K.iface_of(m["iface"])
-    docs = IF.render(K.rendering_of(m["rendering"]), I)
+    docs = IF.render(K.rendering_of(m["rendering"], anonymous=False), I)
     client = K.make_client(docs, nosend=False)
     op = [o for o in I["ops"] if o["name"] == m["op"]][0]
     outvals = K.outvals_of(m["iface"], I, op, m["case"])
